@@ -207,7 +207,8 @@ def validate_trace(trace, work_dir, tracecfg='Trace'):
     nev = sum(1 for _ in open(trace)) if os.path.exists(trace) else 0
     if nev == 0:
         return {'dir': work_dir, 'status': 'rejected', 'detail': 'empty trace', 'events': 0}
-    cmd = [TLC, '-workers', '1', '-metadir', md, '-config', tracecfg + '.cfg', 'Trace.tla']
+    module = tracecfg + '.tla' if os.path.exists('%s/%s.tla' % (SPEC, tracecfg)) else 'Trace.tla'
+    cmd = [TLC, '-workers', '1', '-metadir', md, '-config', tracecfg + '.cfg', module]
     try:
         rc, out = sh(cmd, timeout=3000, cwd=SPEC, env={'TRACE': trace, 'TLC_XMX': '-Xmx2g'})
     except subprocess.TimeoutExpired:
@@ -500,6 +501,7 @@ def run_tool_shard(args):
 
 
 def _tool_tv(self, scenarios, flavour, name, per_shard=40, key_fn=None):
+    """run tool scenarios (tools/toolrun.py) on the full build of a flavour and validate the trace"""
     if 'tools:' + flavour not in self.cov['flavours']:
         self.cov['flavours'].append('tools:' + flavour)
     build_full(flavour)
